@@ -14,6 +14,8 @@
 
 //! Handling of DNS QUERY messages.
 
+use std::cmp::min;
+
 use arrayvec::ArrayVec;
 
 use super::{Context, ProcessingError, ProcessingResult, Server, Transport};
@@ -559,15 +561,15 @@ fn do_additional_section_processing(
 ///
 /// [RFC 2308 § 3]: https://datatracker.ietf.org/doc/html/rfc2308#section-3
 fn add_negative_caching_soa(zone: &impl Zone, response: &mut Writer) -> ProcessingResult<()> {
-    // Note that per RFC 2308 § 3, the TTL we are to use is not the TTL
-    // of the SOA record itself, but rather the SOA MINIMUM field.
+    // Note that per RFC 2308 § 3, the TTL we are to use is the smaller
+    // of the TTL of the SOA record itself and the SOA MINIMUM field.
     let soa_rrset = zone.soa().ok_or(ProcessingError::ServFail)?;
     let soa_rdata = soa_rrset
         .rdatas
         .iter()
         .next()
         .ok_or(ProcessingError::ServFail)?;
-    let ttl = Ttl::from(read_soa_minimum(soa_rdata)?);
+    let ttl = min(soa_rrset.ttl, Ttl::from(read_soa_minimum(soa_rdata)?));
     response
         .add_authority_rr(
             HintedName::new(Hint::None, zone.name()),
